@@ -136,7 +136,7 @@ func (c *Closure) Call(fm *Frame, args []any, opts map[string]any) error {
 
 	fm.local = local
 	fm.src = c.Src
-	fm.defers = new([]func(*Frame) Exception)
+	fm.defers = new(deferList)
 	exc := c.op.exec(fm)
 	excDefer := fm.runDefers()
 	// TODO: Combine exc and excDefer if both are not nil
